@@ -146,17 +146,26 @@ def posCalls (ps : List PTok) : List Call :=
 requested set is too large to enumerate -/
 def shownOf (sd : SD) (w : Win) (ps : List PTok) : Option (List (Nat × Nat) × Int) :=
   let cs := posCalls ps
+  -- positions at or beyond the end of a finite sequence / window are never shown: ranges are
+  -- enumerated only up to there (so that "everything up to MaxInt" on a finite sequence is judged)
+  let top : Option Int := upper sd.len w
+  let clampE := fun (e : Int) => match top with | some u => min e (max u 0) | none => e
   let cands : List Int := ps.flatMap fun
     | .add p => [p]
-    | .addRange s e => if e - max s 0 > 5000 then [] else (List.range (e - max s 0).toNat).map fun (i : Nat) => max s 0 + (i : Int)
-  if ps.any (fun | .addRange s e => decide (e - max s 0 > 5000) | _ => false) then none else
+    | .addRange s e =>
+      let e' := clampE e
+      if e' - max s 0 > 5000 then [] else (List.range (e' - max s 0).toNat).map fun (i : Nat) => max s 0 + (i : Int)
+  if ps.any (fun | .addRange s e => decide (clampE e - max s 0 > 5000) | _ => false) then none else
   let pts := (cands.filter fun x => memCallsB cs x).map Int.toNat
   let pts := pts.eraseDups.mergeSort
-  let endP : Int := match pts.getLast? with | none => 0 | some l => (l : Int) + 1
+  -- Positions.End(): the largest position added, plus one (Add(MaxInt) adds nothing)
+  let endP : Int := ps.foldl (fun acc t => match t with
+    | .add p => if 0 ≤ p ∧ p < 9223372036854775807 then max acc (p + 1) else acc
+    | .addRange s e => if max s 0 < e then max acc e else acc) 0
   let lo := (max w.lo 0).toNat
   let shown := pts.filterMap fun p =>
     if p < lo then none
-    else match upper sd.len w with
+    else match top with
       | some u => if (p : Int) < u then some (p, sd.digit p) else none
       | none => some (p, sd.digit p)
   some (shown, endP)
